@@ -157,6 +157,25 @@ pub fn upto(max: usize) -> usize {
     v
 }
 
+/// Symbolic value in `0..=max` (max <= 8), *case-split into constants*: under the path-wise engine every path then carries a
+/// concrete length, so loops, copies and allocation sizes downstream are concrete on that path.
+#[inline(never)]
+pub fn small(max: usize) -> usize {
+    let v = usize();
+    assume(v <= max);
+    match v {
+        0 => 0,
+        1 => 1,
+        2 => 2,
+        3 => 3,
+        4 => 4,
+        5 => 5,
+        6 => 6,
+        7 => 7,
+        _ => 8,
+    }
+}
+
 /// Symbolic byte in `0..=max`.
 #[inline(always)]
 pub fn u8_upto(max: u8) -> u8 {
@@ -194,4 +213,44 @@ macro_rules! cover {
 #[inline(always)]
 pub fn forget<T>(t: T) {
     core::mem::forget(t)
+}
+
+// ---------------------------------------------------------------------------------------------------------------
+// Concrete shapes, symbolic contents.  Symbolic *lengths* of strings (1-4 byte scalars) make every copy and offset
+// downstream symbolic and were measured to exhaust memory; instead every generated string / row takes the next
+// shape of a fixed rotation (a plain counter, concrete during symbolic execution) and only its contents are solver
+// variables.  The rotation and its start (`set_shape`) are part of each harness's stated bound.
+// ---------------------------------------------------------------------------------------------------------------
+// NOTE (Kani 0.68 codegen): a `static mut` whose *initial bytes* equal those of some promoted constant (e.g.
+// `static mut N: usize = 0` vs. the `Cap::ZERO` constant read by `RawVec::new`) is merged with that constant; after
+// the first write every `Vec::new()` then starts with a bogus capacity.  The mutable state below therefore starts
+// from magic bit patterns that no constant in std shares, and the logical value is the offset from the magic.
+const SHAPE_BASE: u64 = 0x5eed_5afe_c0de_0000;
+const SYMLEN_OFF: u64 = 0x5eed_5afe_b001_0000;
+static mut SHAPE_RAW: u64 = SHAPE_BASE;
+static mut SYMLEN_RAW: u64 = SYMLEN_OFF;
+
+/// Start the shape rotation at `k`.
+pub fn set_shape(k: usize) {
+    unsafe { SHAPE_RAW = SHAPE_BASE + k as u64 }
+}
+
+/// Next shape number.
+pub fn next_shape() -> usize {
+    unsafe {
+        let s = SHAPE_RAW;
+        SHAPE_RAW = s + 1;
+        (s - SHAPE_BASE) as usize
+    }
+}
+
+/// Byte-slice generators draw their *length* symbolically (true) or from the concrete rotation (false, default).
+/// Symbolic lengths are affordable for two-item round trips only; longer histories use concrete shapes.
+pub fn set_symbolic_len(on: bool) {
+    unsafe { SYMLEN_RAW = if on { SYMLEN_OFF + 1 } else { SYMLEN_OFF } }
+}
+
+/// See `set_symbolic_len`.
+pub fn symbolic_len() -> bool {
+    unsafe { SYMLEN_RAW != SYMLEN_OFF }
 }
